@@ -608,6 +608,15 @@ func evalCase(t hx.TB, c Case) {
 	rec.Check(t, c, f)
 }
 
+// asBranchable recognises a saved case of the @branchable phase.
+func asBranchable(raw []byte) (BCase, bool) {
+	var bc BCase
+	if err := json.Unmarshal(raw, &bc); err != nil || !bc.Branchable {
+		return BCase{}, false
+	}
+	return bc, true
+}
+
 func TestC10(t *testing.T) {
 	rapid.Check(t, func(t *rapid.T) {
 		evalCase(t, drawCase(t))
@@ -617,6 +626,14 @@ func TestC10(t *testing.T) {
 func TestReplay(t *testing.T) {
 	raw := hx.ReplayCase(t)
 	rec.SetReplaying()
+	if bc, ok := asBranchable(raw); ok {
+		f := hx.Guard("C10", func() *hx.Failure { f, _ := runBranchable(bc); return f })
+		if f != nil {
+			t.Logf("replay verdict: %s: %s", f.Sig, f.Msg)
+		}
+		rec.Check(t, bc, f)
+		return
+	}
 	var c Case
 	if err := json.Unmarshal(raw, &c); err != nil {
 		t.Fatalf("replay case: %v", err)
@@ -630,6 +647,9 @@ func TestReplay(t *testing.T) {
 
 func TestRegress(t *testing.T) {
 	hx.Regress(t, "testdata/regress", func(raw []byte) *hx.Failure {
+		if bc, ok := asBranchable(raw); ok {
+			return hx.Guard("C10", func() *hx.Failure { f, _ := runBranchable(bc); return f })
+		}
 		var c Case
 		if err := json.Unmarshal(raw, &c); err != nil {
 			return hx.Failf("C10/regress-file", "%v", err)
